@@ -120,6 +120,103 @@ def register(R):
   additive('RRegression', ['num_samples', 'sum_x', 'sum_y', 'sum_xx', 'sum_yy', 'sum_xy'])
   additive('SymmetricPredictionDifference', ['num_samples', 'sum_half_pointwise_rel_diff'])
 
+  # ---- the generic wrapper every mergeable metric runs through (aggregates/base.py) --------------------------------
+  # A metric object is opaque; its abstract value lives in a ghost heap `absval` (object -> value) that only the opaque
+  # `merge` / `add` calls update: x.merge(y) sets absval[x] := mg(absval[x], absval[y]) and touches nothing else (which is
+  # what the merge contracts above establish for the shipped metrics); x.add(b) sets absval[x] := mg(absval[x], stat(b)).
+  BASE = 'ml_metrics/_src/aggregates/base.py'
+  mg = z3.Function('merged_value', Obj, Obj, Obj)
+  fold = z3.Function('fold_upto', z3.IntSort(), Obj)        # ghost: value of the left fold of the first i states
+
+  def _absval(it):
+    if '__absval__' not in it.ghost:
+      it.ghost['__absval__'] = [z3.Array(it.path.fresh_name('absval'), Obj, Obj)]
+    return it.ghost['__absval__']
+
+  def _merge(it, v, a, k):
+    h = _absval(it)
+    x, y = v.t, it.to_obj(a[0])
+    h[0] = z3.Store(h[0], x, mg(z3.Select(h[0], x), z3.Select(h[0], y)))
+    return NONE
+  R.opaque_methods['merge'] = _merge
+
+  @R.spec
+  def value_now(it, a, k):
+    return VOpaque(z3.Select(_absval(it)[0], it.to_obj(a[0])))
+
+  @R.spec
+  def value_at_entry(it, a, k):
+    return VOpaque(z3.Select(it.ghost['__absval0__'], it.to_obj(a[0])))
+
+  @R.spec
+  def folded(it, a, k):
+    return VOpaque(fold(it.to_int(a[0])))
+
+  def _fold_setup(it, env):
+    h = _absval(it)
+    it.ghost['__absval0__'] = h[0]
+    src = env['states'].src
+    i, j = z3.Int(it.path.fresh_name('i')), z3.Int(it.path.fresh_name('j'))
+    # definition of the ghost fold (definitional extension) over the values the states have at entry
+    it.assume(fold(1) == z3.Select(h[0], z3.Select(src.arr, 0)))
+    it.assume(z3.ForAll([i], z3.Implies(i >= 1, fold(i + 1) == mg(fold(i), z3.Select(h[0], z3.Select(src.arr, i))))))
+    # the states are distinct objects
+    it.assume(z3.ForAll([i, j], z3.Implies(z3.And(0 <= i, i < j, j < src.n), z3.Select(src.arr, i) != z3.Select(src.arr, j))))
+    env['states'].fails = None
+
+  stat = z3.Function('batch_statistics', Obj, Obj)          # ghost: the sufficient statistics of one batch
+
+  def _add(it, v, a, k):
+    h = _absval(it)
+    h[0] = z3.Store(h[0], v.t, mg(z3.Select(h[0], v.t), stat(it.to_obj(a[0]))))
+    return VOpaque(it.fresh_obj('batch_output'))
+  R.opaque_methods['add'] = _add
+
+  def _new(it, v, a, k):
+    h = _absval(it)
+    r = it.fresh_obj('batch_result')
+    it.assume(r != v.t)
+    h[0] = z3.Store(h[0], r, stat(it.to_obj(a[0])))
+    return VOpaque(r)
+  R.opaque_methods['new'] = _new
+
+  @R.spec
+  def statistics_of(it, a, k):
+    return VOpaque(stat(it.to_obj(a[0])))
+
+  @R.spec
+  def merged(it, a, k):
+    return VOpaque(mg(it.to_obj(a[0]), it.to_obj(a[1])))
+
+  def _entry_values(it, env):
+    it.ghost['__absval0__'] = _absval(it)[0]
+
+  R.add(Contract(
+      f'{BASE}::MergeableMetricAggFn.update_state', PROPS, types=dict(self='MergeableMetricAggFn', state='obj', args='tuple[obj]'), ret='obj',
+      setup=_entry_values,
+      ensures=['result is state', 'value_now(state) is merged(value_at_entry(state), statistics_of(args[0]))'],
+      bounded='bounded_partition', note='updating with a batch = merging the statistics of that batch into the state (in place)'))
+  R.add(Contract(
+      f'{BASE}::CallableMetric.add', PROPS, types=dict(self='obj', args='tuple[obj]'), ret='obj', setup=_entry_values,
+      ensures=['value_now(self) is merged(value_at_entry(self), statistics_of(args[0]))',
+               # the per-batch value handed back is the statistic of this batch alone: it does not depend on what was accumulated
+               'value_now(result) is statistics_of(args[0])', 'result is not self'],
+      bounded='bounded_row_locality', note='default add: new(batch) then merge - the homomorphism the batching invariance rests on'))
+
+  R.cls('MergeableMetricAggFn', dict(metric_maker='obj'))
+  R.add(Contract(
+      f'{BASE}::MergeableMetricAggFn.merge_states', PROPS, types=dict(self='MergeableMetricAggFn', states='iter[obj]'), ret='obj', setup=_fold_setup,
+      requires=['states.pos == 0', 'len(states.src) >= 1'], modifies=['states'],
+      ensures=[
+          # the first state is returned and holds the left fold of all the states ...
+          'result is states.src[0]', 'value_now(result) is folded(len(states.src))',
+          # ... and ONLY the first state is modified: every other operand keeps its value
+          'forall(lambda j: value_now(states.src[j]) is value_at_entry(states.src[j]), 1, len(states.src))'],
+      loops={0: dict(invariant=['result is states.src[0]', 'idx_state >= 1', 'value_now(result) is folded(idx_state)',
+                                'forall(lambda j: value_now(states.src[j]) is value_at_entry(states.src[j]), 1, len(states.src))'])},
+      bounded='bounded_merge_states',
+      note='merge_states = left fold with merge; with the additive merge contracts the fold is order- and bracketing-independent (lemma)'))
+
   R.bounded_checks['C01'] = [
       ('bounded_partition', 'every shipped metric: all shard/batch compositions (incl. empty shards) vs one batch'),
       ('bounded_row_locality', 'per-example values returned by add() do not depend on batch-mates (TopKRetrieval)'),
